@@ -70,6 +70,10 @@ def payloads(rng, tier):
         for vt in (18, 40):
             st = ("ACGT" * (ln // 4 + 1))[:ln] if vt == 18 else "".join(rng.choice(NUC) for _ in range(ln))
             yield "set_vt", {"s": st, "n": vt}
+    # strands just beyond 2^20 nucleotides in which EVERY position of one parity is an ascent (so that an ascent straddles every
+    # block border of an implementation that scans in blocks, whatever power of two or ten the block size is)
+    for pat, vt in ([("CA", 20), ("AC", 5)] if tier != "search" else [("CA", 20)]):
+        yield "set_vt", {"s": pat * (2 ** 19 + 1), "n": vt}
     for _ in range(n):
         yield "set_vt", {"s": strand(rng, maxlen), "n": rng.choice([1, 1, 2, 3, 5, 8, 16, 32, 33, 34, 40, rng.randint(1, 70)])}
     for _ in range(n // 30):
